@@ -22,8 +22,12 @@ func (as AlertsSettings) validate() error {
 		}
 	}
 	if as.Step != "" {
-		if _, err := parseDuration(as.Step); err != nil {
+		step, err := parseDuration(as.Step)
+		if err != nil {
 			return err
+		}
+		if step <= 0 {
+			return fmt.Errorf("step must be > 0, got %s", as.Step)
 		}
 	}
 	if as.Resolve != "" {
